@@ -4,6 +4,8 @@
 2. Matrix.solve constraint handling (lhs0, bool / NaN-float constrain, rconstrain) with the inner solver a stub
 3. linear solve is independent of the initial guess (backend = exact symbolic solve)
 4. System.solve driver with a stub method yielding arbitrary extended-real residual norms (finite / NaN / +-inf)
+5. System.deconstruct / construct: constrained entries keep exactly the prescribed value (float constraint) or the guess (boolean constraint), all others are the free vector
+6. System.solve_constraints: an entry is left NaN exactly if every entry of its jacobian COLUMN is within droptol (matrix back end = stub with csr export / row support / recording solve)
 '''
 import sys, itertools, builtins, warnings, numpy, z3, contextlib, math
 warnings.simplefilter('ignore')
@@ -325,6 +327,166 @@ def replay_nonfinite(item):
         return False, f'raised {type(e).__name__}'
     return (True, f'returned {lhs}') if not numpy.isfinite(lhs).all() else (False, 'finite')
 
+# ---------------------------------------------------------------- 5. System.deconstruct / construct (NaN marks free entries)
+
+_SYS2 = None
+def system2():
+    global _SYS2
+    if _SYS2 is None:
+        u = function.Argument('u', (3,)); w = function.Argument('w', (2,)); v = function.Argument('v', (3,)); z = function.Argument('z', (2,))
+        _SYS2 = solver.System(((u * 2. + 1.) * v).sum() + ((w * 3. - 1.) * z).sum(), trial='u,w', test='v,z')
+    return _SYS2
+
+def _mixed(name, mask):
+    a = numpy.empty(len(mask), object)
+    for i, m in enumerate(mask): a[i] = SReal(z3.Real(f'{name}{i}')) if m else float('nan')
+    return SArray(a, 'f')
+
+def roundtrip_case(item):
+    '''item = (guess given for u, constraint mode none|bool|float, mask over the 3 entries of u, guess given for w)'''
+    a_given, mode, mask, w_given = item
+    key = f'System.deconstruct/construct u: guess={"yes" if a_given else "no"} constrain={mode}{list(mask) if mode != "none" else ""} w: guess={"yes" if w_given else "no"}'
+    out = dict(key=key, paths=0, unsat=0, unknown=0, cex=[], returned=0, raised={})
+    sysm = system2()
+    def run():
+        saved = solver.numpy; solver.numpy = npproxy
+        try:
+            args = {}
+            if a_given: args['u'] = SArray.symbolic('au', (3,))
+            if w_given: args['w'] = SArray.symbolic('aw', (2,))
+            cons = {}
+            if mode == 'bool': cons['u'] = numpy.array(mask, dtype=bool)
+            elif mode == 'float': cons['u'] = _mixed('cu', mask)
+            args2, x0 = sysm.deconstruct(args, cons)
+            X = SArray.symbolic('X', (len(x0),))
+            fin = sysm.construct(args2, X)
+            return args, cons, x0, X, fin
+        finally: solver.numpy = saved
+    paths, complete = explore(run, max_paths=8, timeout_ms=10000)
+    out['paths'] = len(paths)
+    for P in paths:
+        if P.tag != 'ok':
+            out['cex'].append(dict(kind='unexpected-exception', detail=f'{P.tag} {type(P.value).__name__}: {P.value}'[:200])); continue
+        args, cons, x0, X, fin = P.value
+        out['returned'] += 1
+        # the definition: constrained entries keep the prescribed value (float constraint) or the guess / zero (boolean constraint); all others are the free vector, in order
+        want_u, want_x0, k = [], [], 0
+        for i in range(3):
+            constrained = (mode == 'bool' and mask[i]) or (mode == 'float' and mask[i])
+            if constrained:
+                want_u.append(cons['u'].a[i] if mode == 'float' else (args['u'].a[i] if a_given else 0.))
+            else:
+                want_u.append(X.a[k]); want_x0.append(args['u'].a[i] if a_given else 0.); k += 1
+        want_w = [X.a[k + j] for j in range(2)]; want_x0 += [args['w'].a[j] if w_given else 0. for j in range(2)]
+        def arr(lst):
+            a = numpy.empty(len(lst), object)
+            for i, x in enumerate(lst): a[i] = x
+            return SArray(a, 'f')
+        for label, ref, got in (('u', arr(want_u), fin['u']), ('w', arr(want_w), fin['w']), ('initial free vector', arr(want_x0), x0)):
+            got = SArray.wrap(got)
+            if tuple(got.shape) != tuple(ref.shape) or any(isinstance(x, float) and x != x for x in got.a.flat):
+                out['cex'].append(dict(kind='roundtrip', detail=f'{label}: result {got} (expected shape {ref.shape}, no NaN left)')); continue
+            v = S.equiv(ref, got, pc=P.pc, timeout_ms=10000)
+            out['unsat'] += v.exact_unsat + v.trivial; out['unknown'] += v.unknown
+            if v.sat: out['cex'].append(dict(kind='roundtrip', detail=f'{label}: entry differs from the prescribed/free value', model={str(d): str(v.models[0][1][d]) for d in v.models[0][1].decls()}))
+    return out
+
+def replay_roundtrip(item):
+    '''real numpy: distinct concrete guess / constraint / free values through deconstruct + construct'''
+    a_given, mode, mask, w_given = item
+    sysm = system2()
+    args = {}
+    if a_given: args['u'] = numpy.array([10., 20., 30.])
+    if w_given: args['w'] = numpy.array([40., 50.])
+    cons = {}
+    if mode == 'bool': cons['u'] = numpy.array(mask, dtype=bool)
+    elif mode == 'float': cons['u'] = numpy.array([(7. + i) if m else numpy.nan for i, m in enumerate(mask)])
+    try:
+        args2, x0 = sysm.deconstruct(args, cons)
+        X = 100. + numpy.arange(len(x0)); fin = sysm.construct(args2, X.copy())
+    except Exception as ex:
+        return True, f'raised {type(ex).__name__}: {ex}'
+    want, k = [], 0
+    for i in range(3):
+        if mode != 'none' and mask[i]: want.append(cons['u'][i] if mode == 'float' else (args['u'][i] if a_given else 0.))
+        else: want.append(X[k]); k += 1
+    if not numpy.array_equal(fin['u'], want) or not numpy.array_equal(fin['w'], X[k:]):
+        return True, f'constructed u={fin["u"].tolist()} w={fin["w"].tolist()}, definition gives u={want} w={X[k:].tolist()} (guess {tv.tolist(args)}, constrain {tv.tolist(cons)})'
+    return False, 'agree'
+
+# ---------------------------------------------------------------- 6. solve_constraints: NaN exactly where the column is below droptol
+
+PATTERNS_CSR = [((0, 2, 3), (0, 1, 1)), ((0, 1, 3), (1, 0, 1)), ((0, 2, 4), (0, 1, 0, 1)), ((0, 1, 2, 4), (2, 0, 1, 2)), ((0, 0, 2), (0, 1)), ((0, 3, 3, 4), (0, 1, 2, 0))]
+
+class _StubJac:
+    '''matrix back end stub: csr export, row support and a linear solve that records the constraint mask it is given'''
+    def __init__(s, data, colidx, rowptr, n): s.data, s.colidx, s.rowptr, s.n = data, colidx, rowptr, n; s.shape = (n, n); s.seen = None
+    def export(s, form): assert form == 'csr'; return s.data, SArray.wrap(numpy.array(s.colidx)), numpy.array(s.rowptr)
+    def rowsupp(s, tol=0):
+        out = npproxy.zeros(s.n, dtype=bool)
+        for r in range(s.n):
+            for k in range(s.rowptr[r], s.rowptr[r + 1]): out[r] = out[r] | (abs(s.data[k]) > tol)
+        return out
+    def solve(s, rhs, constrain=None, **kw): s.seen = constrain; return npproxy.zeros(s.n, dtype=float)
+    def __matmul__(s, x): return npproxy.zeros(s.n, dtype=float)
+
+_SYS3 = {}
+def system3(n):
+    if n not in _SYS3:
+        u = function.Argument('u', (n,)); v = function.Argument('v', (n,))
+        _SYS3[n] = solver.System((u * v).sum(), trial='u', test='v')
+    return _SYS3[n]
+
+def droptol_case(ip):
+    rowptr, colidx = PATTERNS_CSR[ip]; n = len(rowptr) - 1
+    key = f'System.solve_constraints droptol: {n}x{n} jacobian with csr pattern rowptr={list(rowptr)} colidx={list(colidx)}'
+    out = dict(key=key, paths=0, unsat=0, unknown=0, cex=[], returned=0, raised={})
+    sysm = system3(n)
+    def run():
+        saved = solver.numpy, sysm.__dict__.get('assemble'); solver.numpy = npproxy
+        try:
+            data = SArray.symbolic('d', (len(colidx),))
+            J = _StubJac(data, colidx, rowptr, n)
+            sysm.assemble = lambda arguments, x: (J, SArray.symbolic('r', (n,)), 0.)
+            res = sysm.solve_constraints(droptol=SReal(z3.Real('droptol')))
+            return res['u'], data
+        finally:
+            solver.numpy = saved[0]
+            if saved[1] is None: sysm.__dict__.pop('assemble', None)
+    paths, complete = explore(run, assumptions=[z3.Real('droptol') >= 0], max_paths=64, timeout_ms=10000)
+    out['paths'] = len(paths)
+    absz = lambda t: z3.If(t >= 0, t, -t)
+    for P in paths:
+        if P.tag != 'ok':
+            out['cex'].append(dict(kind='unexpected-exception', detail=f'{P.tag} {type(P.value).__name__}: {P.value}'[:200])); continue
+        res, data = P.value; res = SArray.wrap(res); out['returned'] += 1
+        for j in range(n):
+            isnan = isinstance(res.a[j], float) and res.a[j] != res.a[j]
+            below = z3.And(*[absz(data.a[k].t) <= z3.Real('droptol') for k in range(len(colidx)) if colidx[k] == j])
+            r, m = S.holds(below if isnan else z3.Not(below), pc=P.pc, timeout_ms=10000)
+            if r == 'unsat': out['unsat'] += 1
+            elif r == 'unknown': out['unknown'] += 1
+            else: out['cex'].append(dict(kind='droptol', detail=f'dof {j} is {"left undetermined (NaN)" if isnan else "solved for"} although its column is {"above" if isnan else "below"} the drop tolerance',
+                                         data=[S.model_value(m, d.t) for d in data.a], droptol=S.model_value(m, z3.Real('droptol')), pattern=ip))
+    return out
+
+def replay_droptol(c):
+    '''real System with the jacobian A of the counterexample: solve_constraints must leave NaN exactly at the dofs whose column of A is below droptol'''
+    rowptr, colidx = PATTERNS_CSR[c['pattern']]; n = len(rowptr) - 1
+    A = numpy.zeros((n, n))
+    for r in range(n):
+        for k in range(rowptr[r], rowptr[r + 1]): A[r, colidx[k]] = c['data'][k]
+    u = function.Argument('u', (n,)); v = function.Argument('v', (n,))
+    sysm = solver.System(numpy.einsum('i,ij,j->', v, A, u) - v.sum(), trial='u', test='v')
+    want = ~(abs(A) > c['droptol']).any(0)
+    try:
+        with treelog.set(treelog.NullLog()), matrix.backend('numpy'):
+            got = numpy.isnan(sysm.solve_constraints(droptol=c['droptol'])['u'])
+    except Exception as ex:
+        return bool(want.any() and not want.all()) and not (abs(A) > c['droptol']).any(1).all() == False, f'raised {type(ex).__name__}: {ex}'
+    if not numpy.array_equal(got, want): return True, f'jacobian {A.tolist()} droptol {c["droptol"]}: NaN pattern {got.tolist()}, columns below tolerance {want.tolist()}'
+    return False, 'agree'
+
 def main(argv=None):
     args = harness.parse_args(PID, argv)
     if args.replay:
@@ -332,6 +494,8 @@ def main(argv=None):
         d = json.load(open(args.replay))['replay']
         if d['kind'] == 'driver': ok, detail = replay_driver(d)
         elif d['kind'] == 'nonfinite': ok, detail = replay_nonfinite(d['item'])
+        elif d['kind'] == 'roundtrip': ok, detail = replay_roundtrip((d['item'][0], d['item'][1], tuple(d['item'][2]), d['item'][3]))
+        elif d['kind'] == 'droptol': ok, detail = replay_droptol(d)
         else: ok, detail = replay_constrain(tuple(d['item']))
         print('REPRODUCED' if ok else 'not reproduced', detail); return 1 if ok else 0
     run = harness.Run(PID, 'other', args,
@@ -358,6 +522,12 @@ def main(argv=None):
     for K in ((2, 3, 4) if thorough else (2, 3)):
         for has_maxiter in (True, False): cases.append(('driver', (K, True, has_maxiter)))
     cases.append(('driver', (0, False, False)))
+    for a_given in (False, True):
+        for w_given in ((False, True) if thorough else (True,)):
+            cases.append(('roundtrip', (a_given, 'none', (0, 0, 0), w_given)))
+            for mask in itertools.product([0, 1], repeat=3):
+                for mode in ('bool', 'float'): cases.append(('roundtrip', (a_given, mode, mask, w_given)))
+    for ip in range(len(PATTERNS_CSR)): cases.append(('droptol', ip))
     if args.only: cases = [c for c in cases if args.only in str(c)]
     run.bounds = dict(cases=len(cases), matrix_size='n<=%d' % (3 if thorough else 2), driver_unroll='K<=%d' % (4 if thorough else 3))
     with harness.FuncTrace() as ft, treelog.set(treelog.NullLog()):
@@ -380,6 +550,14 @@ def main(argv=None):
                 ok, detail = replay_constrain(out['item'])
                 if ok: run.violation(f'constrain:{out["key"]}', f'Matrix.solve: {c["detail"]} for {out["key"]}: {detail}', dict(kind='constrain', item=list(out['item']), detail=c))
                 else: run.unconfirmed(out['key'], f'{c["detail"]} (stub solver counterexample {c.get("model")}) did not reproduce with the direct solver: {detail}')
+            elif c['kind'] == 'roundtrip':
+                ok, detail = replay_roundtrip(out['item'])
+                if ok: run.violation(f'roundtrip:{out["key"]}', f'{out["key"]}: {c["detail"]}: {detail}'[:600], dict(kind='roundtrip', item=list(out['item'])))
+                else: run.unconfirmed(out['key'], f'{c["detail"]}: not reproduced ({detail})')
+            elif c['kind'] == 'droptol':
+                ok, detail = replay_droptol(c)
+                if ok: run.violation(f'droptol:{out["key"]}', f'{out["key"]}: {c["detail"]}: {detail}'[:600], dict(c, kind='droptol'))
+                else: run.unconfirmed(out['key'], f'{c["detail"]}: not reproduced ({detail})')
             elif c['kind'] == 'nonfinite-returned' and replay_nonfinite(out['item'])[0]:
                 run.violation(f'solver:nonfinite:{out["key"]}', f'Matrix._solver returned a non-finite vector produced by the solver method ({out["key"]})', dict(kind='nonfinite', item=list(out['item'])))
             else:
@@ -394,7 +572,7 @@ def _case(c):
     with treelog.set(treelog.NullLog()):
         return _case1(kind, item)
 def _case1(kind, item):
-    out = dict(solver=solver_case, constrain=constrain_case, guess=guess_case, driver=driver_case)[kind](item)
+    out = dict(solver=solver_case, constrain=constrain_case, guess=guess_case, driver=driver_case, roundtrip=roundtrip_case, droptol=droptol_case)[kind](item)
     out['item'] = item
     return out
 
